@@ -106,6 +106,28 @@ def _zero_byte_seeds():
     return ["l:%d:16" % v for v in want.values() if v is not None]
 
 
+# byte strings that a 'helpful' normalisation (trim, case folding, Unicode normalisation, NUL handling) would change
+def _norm_inputs():
+    w = b"abandon ability able"
+    out = [b" " + w, w + b" ", w + b"\n", w + b"\r\n", b"\t" + w, w + b"\t", w + b"\x0c", b"\x0c" + w, w + b"\x0b", b"\x0b" + w,
+           b"\r" + w, b" \t\r\n" + w + b"\n\r\t ", w.replace(b" ", b"  "), w.replace(b" ", b"\t"), w.replace(b" ", b"\n"),
+           b"abandon\x0cability\x0bable", w + b"\x00", b"\x00" + w, b"abandon\x00ability", w.upper(), w.title(), b"Abandon ability able",
+           "caf\u00e9 na\u00efve".encode(), "cafe\u0301 nai\u0308ve".encode(),          # NFC vs NFD
+           "\ufb01ne \uff21\uff22 \u2460".encode(), "fine AB 1".encode(),                 # NFKC/NFKD-sensitive: ligature, full-width, circled digit
+           "\u3000wide\u00a0space\u2003".encode(), "\ufeffbom".encode(), b"\xff\xfe\x80", b" ", b"\n", b"\x00", b"  ", b""]
+    return out
+
+
+def _mnemonic_expected(m, passphrase):
+    """what the code at HEAD (and the model) computes: PBKDF2-HMAC-SHA512 over the bytes as given, salt = passphrase if
+    given else b'mnemonic', 2048 rounds, 64 bytes; then HMAC-SHA512 keyed 'Bitcoin seed'. Independent implementation: hashlib."""
+    import hashlib, hmac as pyhmac
+    salt = passphrase if passphrase is not None else b"mnemonic"
+    seed = hashlib.pbkdf2_hmac("sha512", m, salt, 2048, 64)
+    i = pyhmac.new(b"Bitcoin seed", seed, "sha512").digest()
+    return i[:32].hex(), i[32:].hex()
+
+
 def generate(rng, tier):
     thorough = tier == "thorough"
     cases = []
@@ -278,6 +300,63 @@ def generate(rng, tier):
     A("kdf.seed", [""]); A("kdf.seed", ["00"]); A("kdf.seed", ["r:00:64"]); A("kdf.seed", ["r:ff:64"])
     for sd in _zero_byte_seeds():
         A("kdf.seed", [sd])
+
+    # ---------------------------------------------------------------- inputs a normalisation would change
+    norms = _norm_inputs()
+    base_mn = b"vapor cabbage jacket unveil permit web live pyramid husband final plug metal"
+    mn_variants = [base_mn] + [x for x in [b" " + base_mn, base_mn + b" ", base_mn + b"\n", base_mn + b"\r\n", b"\t" + base_mn, base_mn + b"\t",
+                   base_mn + b"\x0c", b"\x0c" + base_mn, base_mn + b"\x0b", b"\r" + base_mn, b"\n" + base_mn + b"\n",
+                   base_mn.replace(b" ", b"  "), base_mn.replace(b" ", b"\t", 1), base_mn + b"\x00", b"\x00" + base_mn,
+                   base_mn.upper(), base_mn.title(), b"V" + base_mn[1:]]] + norms
+    pass_variants = [None, b"", b"TREZOR", b"trezor", b" TREZOR", b"TREZOR ", b"TREZOR\n", b"\tTREZOR", b"TREZOR\x00", b"\x00", b" ", b"\n",
+                     "caf\u00e9".encode(), "cafe\u0301".encode(), "\ufb01".encode(), b"mnemonic", b"mnemonicTREZOR"]
+    seen = set()
+    def MN(m, ps, kat):
+        key = (m, ps)
+        if key in seen or len(m) == 32 or (ps is not None and len(ps) == 32):
+            return
+        seen.add(key)
+        flag, ph = (0, "") if ps is None else (1, ps.hex())
+        A("kdf.mnemonic_route", [m.hex(), flag, ph])
+        if kat:
+            k, c = _mnemonic_expected(m, ps)
+            A("kdf.mnemonic_kat", ["%s/%d/%s/%s/%s" % (m.hex(), flag, ph, k, c)])
+    for i, m in enumerate(mn_variants):          # every mnemonic variant, without and with a passphrase
+        MN(m, None, thorough or i % 3 == 0)
+        MN(m, b"TREZOR", thorough or i % 3 == 1)
+    for i, ps in enumerate(pass_variants):       # every passphrase variant on the clean mnemonic and on one with a trailing newline
+        MN(base_mn, ps, thorough or i % 2 == 0)
+        MN(base_mn + b"\n", ps, thorough or i % 2 == 1)
+    MN(b"", None, True); MN(b"", b"", True); MN(b" ", b" ", True)
+    if thorough:
+        A("kdf.mnemonic", [(base_mn + b"\n").hex(), 0, ""])      # the Gallina evaluation on a whitespace-carrying phrase
+    # a representative of every normalisation kind through every byte-taking entry point
+    w = b"abandon ability able"
+    fan = [b" " + w, w + b" ", w + b"\n", w + b"\r\n", b"\t" + w, w + b"\x0c", w + b"\x0b", w + b"\x00", b"\x00" + w,
+           w.replace(b" ", b"  "), w.upper(), w.title(), "caf\u00e9 na\u00efve".encode(), "cafe\u0301 nai\u0308ve".encode(),
+           "\ufb01ne \uff21\uff22 \u2460".encode(), b" "]
+    for x in fan:
+        hx = x.hex()
+        for h in HASHES:
+            A("hash." + h, [hx])
+            A("hmac." + h, [hx, "6b6579"]); A("hmac." + h, ["6d7367", hx])
+        for algo in ALGOS:
+            A("kdf.pbkdf2", [hx, "73616c74", algo, 1, HLEN[algo]])
+            A("kdf.pbkdf2_impl", ["70617373", hx, algo, 2, HLEN[algo]])
+        for ad in ADAPTERS:
+            A("digest.oneshot", [ad, hx])
+            A("digest.seq", [ad, "d", "u=" + hx, "c", "r"])
+        A("digest.get", ["sha256", 0, hx]); A("digest.get", ["sha256d", 1, hx])
+        A("kdf.seed", [hx])
+    # ---------------------------------------------------------------- short-then-long and long-then-short updates
+    pairs = [(1, 63), (63, 1), (1, 64), (64, 1), (1, 127), (127, 1), (1, 128), (128, 1), (3, 125), (125, 3), (1, 200), (200, 1),
+             (63, 65), (65, 63), (127, 129), (129, 127)]
+    for (a, b) in pairs:
+        for ad in ADAPTERS:
+            A("digest.chunked", [ad, "n", "l:%d:%d" % (700 + a, a), "l:%d:%d" % (800 + b, b)])
+            A("digest.seq", [ad, "d", "u=l:%d:%d" % (700 + a, a), "h=l:%d:%d" % (800 + b, b), "c", "u=l:%d:%d" % (900 + a, a)])
+        for d in DIGESTS:
+            A("hmac.chunked", [d, "6b6579", "l:%d:%d" % (700 + a, a), "l:%d:%d" % (800 + b, b)])
 
     # ---------------------------------------------------------------- adapters
     for ad in ADAPTERS:
